@@ -164,10 +164,21 @@ def run(ctx):
         lines, ids = pdbgen.multichain(rnd, nchains=1, chains="A")
         parts.append(("frag%d" % i, [l for l in lines if not l.startswith("TER")]))
         if i % 2 == 1:
-            # an incomplete residue (side-chain end not modelled): groups without interaction atoms take other branches
-            parts.append(("frag%d-truncated" % i, pdbgen.truncate_sidechains(rnd, parts[-1][1], rnd.randint(1, 2), types=(("ASP", "GLU") if i % 4 == 1 else None))))
+            # an incomplete residue (side-chain end not modelled): groups without interaction atoms take other branches.
+            # Fragments are drawn until the truncation really leaves a titratable group without interaction atoms.
+            src = parts[-1][1]
+            for _ in range(40):
+                tl = pdbgen.truncate_sidechains(rnd, src, rnd.randint(1, 2), types=("ASP", "GLU", "HIS", "ARG"))
+                o = observe.run(pdbgen.text(tl + ["TER   \n"]), [], want_text=False)
+                if not o.error and any(g.titratable and not g.interaction_atoms_for_acids for g in o.mol.conformations[o.mol.conformation_names[0]].groups):
+                    break
+                src = [l for l in pdbgen.multichain(rnd, nchains=1, chains="A")[0] if not l.startswith("TER")]
+            parts.append(("frag%d-truncated" % i, tl))
     for n, t in pdbgen.test_files(["sample-issue-140"] if ctx.quick() else ["sample-issue-140", "3SGB-subset", "1HPX"]):
         parts.append((n, [l for l in pdbgen.lines_of(t) if pdbgen.is_atom(l) and l[17:20] != "HOH"]))
+    # a chain with backbone hydrogen bonds to titratable groups (rare in short fragments)
+    t3 = dict(pdbgen.test_files(["3SGB"]))["3SGB"]
+    parts.append(("3SGB-chain-I", [l for l in pdbgen.lines_of(t3) if l.startswith("ATOM") and l[21] == "I"]))
     seps = [30.0, 100.0, 999.0, 1500.0, 9000.0]
     bad, far_bad = [], []
     for k in range(10 if ctx.quick() else 120):
@@ -175,6 +186,9 @@ def run(ctx):
         trunc = [p for p in parts if p[0].endswith("-truncated") and p[0] != nb]
         if k % 3 == 1 and trunc:
             na, la = rnd.choice(trunc)
+            if k == 1:
+                # ... next to a real structure (backbone hydrogen bonds to titratable groups), in both file orders
+                nb, lb = [p for p in parts if p[0] == "3SGB-chain-I"][0]
         same_chain = (k % 5 == 4)
         if k % 7 == 6:
             nb, lb = na + "(copy)", list(la)
